@@ -342,7 +342,7 @@ def gen_project(rng, plan=None):
         args.append(_expr(rng, main, str(rng.randint(1, 6))))
     # every callable main can see is used at least once
     for c in main.calls:
-        if not any(c.split('(')[0] in a for a in args):
+        if not any(re.search(r'(?<![\w.])' + re.escape(c.split('(')[0]) + r'\(', a) for a in args):
             args.append(c % str(rng.randint(1, 6)))
     main.defs.append('print(%s)' % ', '.join(args))
 
@@ -516,10 +516,10 @@ _TRY_IMPORT = re.compile(r'^try:\n    from \S+ import (\w+)\nexcept ImportError:
 
 def _tied_without_use(files, name):
     """some module imports `name` in both arms of a module-level try/except ImportError and never
-    mentions it below"""
+    uses it below (an attribute `x.name` is not a use of the variable)"""
     for code in files.values():
         for m in _TRY_IMPORT.finditer(code):
-            if m.group(1) == m.group(2) == name and not re.search(r'\b%s\b' % name, code[m.end():]):
+            if m.group(1) == m.group(2) == name and not re.search(r'(?<![\w.])%s\b' % name, code[m.end():]):
                 return True
     return False
 
